@@ -377,6 +377,12 @@ class DFreeScorer(WeightLengthScorer):
         self.qf = qf
         self.setup(searcher, fieldname, text)
 
+    def supports_block_quality(self):
+        # The DFree formula is not monotonic in the term weight and field
+        # length, so its value at (max weight, min length) is not an upper
+        # bound on the scores
+        return False
+
     def _score(self, weight, length):
         return dfree(weight, self.cf, self.qf, length, self.fl)
 
@@ -432,6 +438,12 @@ class PL2Scorer(WeightLengthScorer):
         self.c = c
         self.qf = qf
         self.setup(searcher, fieldname, text)
+
+    def supports_block_quality(self):
+        # The PL2 formula is not monotonic in the term weight and field
+        # length, so its value at (max weight, min length) is not an upper
+        # bound on the scores
+        return False
 
     def _score(self, weight, length):
         return pl2(weight, self.cf, self.qf, self.dc, length, self.avgfl,
